@@ -7,12 +7,15 @@ import (
 	"strings"
 
 	"github.com/tobgu/qframe"
+	qcsv "github.com/tobgu/qframe/config/csv"
 	"github.com/tobgu/qframe/config/eval"
 	"github.com/tobgu/qframe/config/groupby"
+	qsql "github.com/tobgu/qframe/config/sql"
 	"github.com/tobgu/qframe/types"
 
 	"qverif/fw"
 	"qverif/hooks"
+	"qverif/memsql"
 	"qverif/model"
 )
 
@@ -20,7 +23,7 @@ func init() {
 	fw.Register(&fw.Property{
 		ID:    "C01",
 		Level: "exploration",
-		Rule: "case = one history: 1-3 derived root frames, then 40 (quick) / 80 (thorough) steps; each step applies a random operation (Filter with any clause, Sort, Slice, Select, Drop, Copy, Apply/FilteredApply programs incl. built-in ToUpper, Eval, WithRowNums, Distinct, GroupBy->Aggregate with input-scribbling user functions, GroupBy->QFrames, typed views whose Slice() is scribbled over, ToCSV/ToJSON/String/Equals/ByteSize/ColumnTypeMap/ColumnNames) " +
+		Rule: "case = one history: 1-3 derived root frames, then 40 (quick) / 80 (thorough) steps; each step applies a random operation (Filter with any clause, Sort, Slice, Select, Drop, Copy, Apply/FilteredApply programs incl. built-in ToUpper, Eval, WithRowNums, Distinct, GroupBy->Aggregate with input-scribbling user functions, GroupBy->QFrames, typed views whose Slice() is scribbled over, ToCSV plain, without header and with an explicit permuted csv.Columns order / ToJSON / ToSQL / String/Equals/ByteSize/ColumnTypeMap/ColumnNames) " +
 			"to a random member of the growing family (frames, groupers, views, strings obtained through ItemAt); after EVERY step every member is re-observed and compared with the snapshot taken when it was created (Err, Len, names, order, types, every cell; alias canaries for strings returned by views); structural invariants are checked through the hook; " +
 			"evaluation = one re-inspection of one member after one step; non-trivial history = a step produced a result sharing the index array with an older member and a later step operated on one of the two; distinct by history (seeded case number + operation log)",
 		Assumptions: []string{
@@ -469,7 +472,25 @@ func runC01(c *fw.Case) {
 				op = "ToCSV/ToJSON/String/Equals/ByteSize/ColumnTypeMap/ColumnNames/ColumnTypes"
 				var b bytes.Buffer
 				_ = qf.ToCSV(&b)
+				// every ToCSV option: the header switch and an explicit (permuted) column order; the slice passed in is scribbled over afterwards
+				order := make([]string, len(names))
+				for i, p := range rng.Perm(len(names)) {
+					order[i] = names[p]
+				}
+				_ = qf.ToCSV(&b, qcsv.Columns(order), qcsv.Header(rng.Intn(2) == 0))
+				for i := range order {
+					order[i] = "scribbled"
+				}
+				_ = qf.ToCSV(&b, qcsv.Header(false))
 				_ = qf.ToJSON(&b)
+				if rng.Intn(3) == 0 {
+					sdb := memsql.New().Open()
+					if tx, err := sdb.Begin(); err == nil {
+						_ = qf.ToSQL(tx, qsql.Table("t"))
+						_ = tx.Rollback()
+					}
+					sdb.Close()
+				}
 				_ = qf.String()
 				_ = qf.ByteSize()
 				other := family[rng.Intn(len(family))]
